@@ -175,7 +175,62 @@ def mutable_defaults_case(_=None):
   return n, n, viols, [dict(scenario='reads of never-assigned parameters with mutable defaults', cases=n)]
 
 
+def explicit_none_case(_=None):
+  """None stored explicitly in a slot whose parameter has another default (or none) is a value like
+  any other: the positional view, reads by index / name, ordered_arguments and build all report it."""
+  from layerb import pool
+  viols = []
+  def bad(what, name):
+    viols.append(dict(kinds=[], hasdef=[], store=[], ops=[], what=what, sig='explicit-none', op=name,
+                      explicit_none=True))
+  n = 0
+  def required(a, b, /, c, *rest, k):
+    return (a, b, c, rest, k)
+  for cls in (fdl.Config, fdl.Partial):
+    for name, mk, view, args in [
+        ('constructor', lambda: cls(pool.fnone, None, None, None, None, 5, k=None, extra=None),
+         [None, None, None, None, 5], {0: None, 1: None, 'c': None, 3: None, 4: 5, 'k': None, 'extra': None}),
+        ('index assignment', lambda: (lambda c: (c.__setitem__(2, None), c.__setitem__(0, None), c)[2])(cls(pool.fnone, 7, 8, 9)),
+         [None, 8, None], {0: None, 1: 8, 'c': None}),
+        ('negative index / slice', lambda: (lambda c: (c.__setitem__(-1, None), c.__setitem__(slice(0, 2), [None, None]), c)[2])(cls(pool.fnone, 7, 8, 9)),
+         [None, None, None], {0: None, 1: None, 'c': None}),
+        ('by name', lambda: (lambda c: (setattr(c, 'c', None), setattr(c, 'k', None), c)[2])(cls(pool.fnone, 7)),
+         [7, 'two', None], {0: 7, 'c': None, 'k': None}),
+        ('required parameters', lambda: cls(required, None, None, None, None, k=None),
+         [None, None, None, None], {0: None, 1: None, 'c': None, 3: None, 'k': None}),
+    ]:
+      n += 1
+      try:
+        cfg = mk()
+      except Exception as e:   # pylint: disable=broad-except
+        bad(f'{cls.__name__}, {name}: raised {type(e).__name__}: {str(e)[:80]}', name)
+        continue
+      got_view = list(cfg[:])
+      if got_view != view:
+        bad(f'{cls.__name__}, {name}: cfg[:] == {got_view}, the stored values are {view}', name)
+      for i, want in enumerate(view):
+        if cfg[i] is not want and cfg[i] != want:
+          bad(f'{cls.__name__}, {name}: cfg[{i}] == {cfg[i]!r}, stored {want!r}', name)
+      oa = dict(fdl.ordered_arguments(cfg))
+      if oa != args:
+        bad(f'{cls.__name__}, {name}: ordered_arguments reports {oa}, the stored arguments are {args}', name)
+      for k, v in args.items():
+        if isinstance(k, str) and getattr(cfg, k) is not v:
+          bad(f'{cls.__name__}, {name}: cfg.{k} == {getattr(cfg, k)!r}, stored {v!r}', name)
+      if cls is fdl.Config and cfg.__fn_or_cls__ is pool.fnone:
+        built = fdl.build(cfg)
+        pos = [args[i] for i in sorted(i for i in args if isinstance(i, int))]
+        want = pool.fnone(*view, *pos[len(view):] if False else (), **{k: v for k, v in args.items() if isinstance(k, str) and k != 'c'})
+        if built != want:
+          bad(f'{cls.__name__}, {name}: build passes {built}, the direct call with the stored values gives {want}', name)
+  return n, n, viols, [dict(scenario='None stored explicitly', cases=n)]
+
+
 def replay(case):
+  if case.get('explicit_none'):
+    r = explicit_none_case()
+    m = [v for v in r[2] if v['op'] == case.get('op')]
+    return (m[0]['what'], 0) if m else (None, None)
   if case.get('mutable_defaults'):
     r = mutable_defaults_case()
     m = [v for v in r[2] if v['op'] == case.get('op')]
